@@ -94,7 +94,7 @@ def build_segy(case, d, data):
 def run_case(case, ctx):
     d = ctx.tmp()
     shape = tuple(case["shape"])
-    data = gen.make_values(shape, case["values"]["kind"], case["values"]["vseed"])
+    data = None if case["check"] == "fixture" else gen.make_values(shape, case["values"]["kind"], case["values"]["vseed"])
     setting = case["setting"]
     rate, bs = setting["rate"], tuple(setting["blockshape"])
     bpv, bsarg = gen.spelled_args(setting)
@@ -118,6 +118,23 @@ def run_case(case, ctx):
             code, exc = conv.cli_invoke(args)
             if code != 0:
                 raise Violation("cli-failed", f"exit {code}: {exc!r}")
+    elif route == "fixture":
+        import warnings
+        path = os.path.join(conv.env.REPO, "test_data", case["fixture"])
+        with warnings.catch_warnings():
+            warnings.simplefilter("ignore")
+            if path.endswith(".zgy"):
+                import pyzgy
+                with pyzgy.open(path) as f:
+                    src = np.stack([np.array(f.iline[int(i)], dtype=np.float32, copy=True) for i in f.ilines])
+                cls = "ZgyConverter"
+            else:
+                import pyvds
+                with pyvds.open(path) as f:
+                    src = np.stack([np.array(f.iline[int(i)], dtype=np.float32, copy=True) for i in f.ilines])
+                cls = "VdsConverter"
+        case["shape"] = list(src.shape)
+        conv.segy_convert(path, out, bpv, bsarg, cls=cls)
     else:
         raise RuntimeError(route)
     check_output(out, src, rate, bs)
@@ -161,6 +178,16 @@ def cli_cases(draw):
             "il": [1, 1], "xl": [1, 1]}
 
 
+FIXTURES = ["zgy/small-32bit.zgy", "zgy/small-16bit.zgy", "zgy/small-8bit.zgy", "zgy/small-float-samplerate.zgy", "vds/small.vds"]
+
+
+@st.composite
+def fixture_cases(draw):
+    setting = draw(gen.setting_spelled())
+    return {"setting": setting, "fixture": draw(st.sampled_from(FIXTURES)), "shape": [5, 5, 50],
+            "values": {"kind": "fixture", "vseed": 0}}
+
+
 def shard_main(ctx):
     if ctx.tier == "thorough":
         # every one of the 344 settings at least 3 cubes (exhaustive over settings), sharded
@@ -169,11 +196,13 @@ def shard_main(ctx):
             if not ctx.explore(f"numpy", numpy_cases(settings=[s]), run_case, 3):
                 return
         ctx.extra["settings_enumerated"] = len(mine)
-    if not ctx.explore("numpy", numpy_cases(), run_case, ctx.n(60, 600)):
+    if not ctx.explore("numpy", numpy_cases(), run_case, ctx.n(150, 800)):
         return
-    if not ctx.explore("segy", segy_cases(), run_case, ctx.n(40, 400)):
+    if not ctx.explore("segy", segy_cases(), run_case, ctx.n(100, 600)):
         return
-    ctx.explore("cli", cli_cases(), run_case, ctx.n(8, 60))
+    if not ctx.explore("cli", cli_cases(), run_case, ctx.n(20, 100)):
+        return
+    ctx.explore("fixture", fixture_cases(), run_case, ctx.n(12, 80))
 
 
 def replay(case, ctx):
